@@ -5,6 +5,7 @@ import (
 	"flag"
 	"fmt"
 	"os"
+	"path/filepath"
 	"runtime"
 	"sort"
 	"strconv"
@@ -47,6 +48,8 @@ func main() {
 		cmdRun(os.Args[2:])
 	case "check":
 		os.Exit(cmdCheck(os.Args[2:]))
+	case "replay":
+		os.Exit(cmdReplay(os.Args[2:]))
 	default:
 		fmt.Fprintln(os.Stderr, "unknown command", os.Args[1])
 		os.Exit(2)
@@ -108,4 +111,46 @@ func printResult(res *HarnessResult, verbose bool) {
 			}
 		}
 	}
+}
+
+// cmdReplay re-runs one counterexample file natively against /repo's current tree.
+func cmdReplay(args []string) int {
+	if len(args) < 1 {
+		fmt.Fprintln(os.Stderr, "usage: symgo replay <replay.json>")
+		return 2
+	}
+	b, err := os.ReadFile(args[0])
+	if err != nil {
+		fmt.Fprintln(os.Stderr, err)
+		return 2
+	}
+	var f Failure
+	if err := json.Unmarshal(b, &f); err != nil {
+		fmt.Fprintln(os.Stderr, err)
+		return 2
+	}
+	if f.Kind == "LOCKSET" {
+		fmt.Println("lockset finding (no native run):", f.Detail)
+		return 0
+	}
+	w, err := LoadWorld("/repo", "/verif/harness")
+	if err != nil {
+		fmt.Fprintln(os.Stderr, "load:", err)
+		return 2
+	}
+	rp, err := newReplayer("/repo", "/verif/harness", w)
+	if err != nil {
+		fmt.Fprintln(os.Stderr, err)
+		return 2
+	}
+	defer rp.Close()
+	abs, _ := filepath.Abs(args[0])
+	ok, out := rp.Replay(abs, &f)
+	fmt.Print(out)
+	if ok {
+		fmt.Printf("REPRODUCED label=%s kind=%s\n", f.Label, f.Kind)
+		return 1
+	}
+	fmt.Printf("NOT-REPRODUCED label=%s kind=%s\n", f.Label, f.Kind)
+	return 0
 }
